@@ -240,6 +240,8 @@ def _case(draw, tier):
     loc, adj = gen.model_of(g)
     edges = base.graph_edges(g)
     unit = 1.0 if magnitude == "unit" else draw(st.sampled_from([10.0, 100.0]))
+    if magnitude == "degrees" and draw(st.integers(0, 5)) == 0:
+        unit = 20000.0  # regional scale: radii of tens of km, where the shape of the lat/lon box matters
     mode = draw(st.sampled_from(["axis", "axis", "exact_r", "long_edge", "near_edge", "random"]))
     if mode in ("long_edge", "near_edge") and not edges:
         mode = "random"
